@@ -464,6 +464,17 @@ func (w *sxWorld) apply(toks []string) (obs string) {
 			head = "ok -"
 		}
 		synctest.Wait()
+	case "abandon":
+		// the client of the k-th slow POST goes away (request context cancelled); its handler keeps running
+		tag := "p" + toks[1]
+		head = "noop -"
+		for _, a := range w.pend {
+			if a.tag == tag && !a.finished() && a.cancel != nil {
+				a.cancel()
+				head = "ok -"
+			}
+		}
+		synctest.Wait()
 	case "get":
 		w.nasync++
 		req, cancel := w.request(http.MethodGet, toks[1], toks[2], "")
@@ -710,6 +721,9 @@ func (g *sxGen) next() (op string, tags []string) {
 	case r < 90:
 		if g.nslow > 0 {
 			k := 1 + g.rng.Intn(g.nslow)
+			if g.rng.Intn(4) == 0 {
+				return fmt.Sprintf("abandon %d", k), []string{"abandon"}
+			}
 			return fmt.Sprintf("release %d", k), []string{"release"}
 		}
 		op, tag := g.tickOp()
